@@ -21,8 +21,9 @@ import (
 var resumeTypes = []string{"msg", "wait_timeout", "run_expiration", "dial"}
 
 func (w *World) forkSpec(typ string) *ResumeSpec {
-	w.msgSerial++
-	return &ResumeSpec{Type: typ, Text: "fork probe", Dial: "answered", DialSecs: 7, Carry: false, MsgSerial: 900000 + w.msgSerial}
+	// forks must not disturb the main line: their message serials come from their own counter
+	w.forkSerial++
+	return &ResumeSpec{Type: typ, Text: "fork probe", Dial: "answered", DialSecs: 7, Carry: false, MsgSerial: 900000 + w.forkSerial}
 }
 
 type forkOutcome struct {
